@@ -632,7 +632,7 @@ def t_comment_space(facts, res, tier):
 # ----------------------------------------------------------------------------- round 5
 
 
-@rule("T-LINE-RAW", floor=1,
+@rule("T-LINE-RAW", floor=2,
       text="between reading a physical line (and joining its splices) and the scanner that hides string literals, the line buffer is not "
            "rewritten: only the splice handling (pop / push_str / clear / read_line into it) touches it.  Any normalisation of the raw "
            "line (tabs to blanks, case, trimming) also rewrites the inside of string literals that have not been hidden yet")
@@ -660,6 +660,21 @@ def t_line_raw(facts, res, tier):
                 res.fail("T-LINE-RAW:process:rewritten", facts.where(fn, n),
                          "the raw line is replaced (`%s = %s`) before string literals are hidden: whatever this rewrites is also rewritten inside string literals "
                          "on that line (a TAB inside the string of a #define body became a blank)" % (buf, norm(n["r"])[:50]))
+            if n.get("k") == "mcall" and root_name(n["recv"]) == buf and norm(n["recv"]) == buf and n["method"] in ("push_str", "push", "extend", "insert_str"):
+                # what the splice handling appends is a physical line as read_line delivered it
+                a = n["args"][-1] if n.get("args") else {}
+                src = a
+                while isinstance(src, dict) and (src.get("k") in ("ref", "paren") or (src.get("k") == "unary" and src.get("op") in ("&", "*"))
+                                                 or (src.get("k") == "mcall" and src["method"] in ("as_str", "clone", "as_ref", "to_string", "to_owned") and not src.get("args"))):
+                    src = src["recv"] if src.get("k") == "mcall" else src["e"]
+                nm = src["segs"][0] if isinstance(src, dict) and src.get("k") == "path" and len(src["segs"]) == 1 else None
+                read_into = nm is not None and any(x.get("k") == "mcall" and x["method"] == "read_line" and x.get("args") and root_name(x["args"][0]) == nm for x in walk(s))
+                emptied = nm is not None and any(x.get("k") == "let" and x["pat"].get("name") == nm and norm(x.get("init") or {}) in ("String::new()", "String::default()") for x in walk(s))
+                res.inst("T-LINE-RAW:process:spliced:%s" % (nm or "?"), True, {"appended": norm(a)[:60]})
+                if not (read_into and emptied):
+                    res.fail("T-LINE-RAW:process:spliced", facts.where(fn, n),
+                             "the splice handling appends `%s` to the line, which is not a whole physical line as read (a fresh String filled by read_line): a string "
+                             "literal or a macro body continued on the next line loses or gains characters at the join" % norm(a)[:60])
             if n.get("k") == "mcall" and root_name(n["recv"]) == buf and norm(n["recv"]) == buf and n["method"] in (
                     "replace_range", "make_ascii_lowercase", "make_ascii_uppercase", "retain", "truncate", "insert", "insert_str", "remove", "drain"):
                 res.fail("T-LINE-RAW:process:mutated", facts.where(fn, n), "the raw line is modified in place (`%s.%s`) before string literals are hidden" % (buf, n["method"]))
